@@ -763,6 +763,38 @@ func ruleMapCloseOut(c *Ctx, r *R) {
 							okGuard = true
 						}
 					}
+					// the same protocol counting down, whatever the counter is called: it starts at the spawn bound, every worker
+					// takes one off (AddUint32(&remaining, ^uint32(0))) and the one that reaches 0 closes
+					if cf, ok := gd.asCmp(); ok && cf.op == token.EQL && cf.via == nil {
+						add, isCall := cf.x.(*ssa.Call)
+						if !isCall || len(add.Call.Args) != 2 {
+							continue
+						}
+						if cal := add.Call.StaticCallee(); cal == nil || cal.Name() != "AddUint32" || cal.Pkg == nil || cal.Pkg.Pkg.Path() != "sync/atomic" {
+							continue
+						}
+						cell := cellOf(add.Call.Args[0])
+						delta, isK := add.Call.Args[1].(*ssa.Const)
+						if cell == nil || !isK || delta.Value == nil {
+							continue
+						}
+						sts := storesTo(cell)
+						if len(sts) != 1 {
+							continue
+						}
+						isBound := func(y ssa.Value) bool {
+							if cv, ok := y.(*ssa.Convert); ok {
+								y = cv.X
+							}
+							return (parCell != nil && loadCell(y) == parCell) || (parVal != nil && y == parVal) || (parCell != nil && cellOf(freeVarAddr(y)) == parCell) || (parVal != nil && sameRootVar(y, parVal))
+						}
+						if delta.Uint64() == 0xFFFFFFFF && isConstInt(cf.y, 0) && isBound(sts[0].Val) {
+							okGuard = true
+						}
+						if delta.Uint64() == 1 && isConstInt(sts[0].Val, 0) && isBound(cf.y) {
+							okGuard = true
+						}
+					}
 				}
 				r.ok(okGuard, root+"|close-output#"+itoa(nClose), call.Pos(), "the output channel must be closed by exactly the last worker out: atomic.AddUint32(&nDone,1) compared with the same parallelism value that bounds the spawn loop")
 				if root == "parallel.MapStream" {
@@ -917,6 +949,35 @@ func ruleMapStreamError(c *Ctx, r *R) {
 				if cf, ok := gd.asCmp(); ok && cf.x == ssa.Value(wait) && cf.op == token.EQL && isNilConst(cf.y) {
 					retEnd = true
 				}
+			}
+		}
+		// err := s.eg.Wait(); if err == nil { err = stream.End }; return zero, err: one return of a merge - each alternative is
+		// judged on the edge it arrives over
+		if phi, isPhi := returnedValue(ret, len(ret.Results)-1).(*ssa.Phi); isPhi && len(phi.Edges) == 2 {
+			pe, pn := false, false
+			clean := true
+			for ei, e := range phi.Edges {
+				pb := phi.Block().Preds[ei]
+				gs := append(append([]guard{}, guardsOf(pb)...), edgeGuard(pb, phi.Block())...)
+				test := func(op token.Token) bool {
+					for _, gd := range gs {
+						if cf, ok := gd.asCmp(); ok && cf.x == ssa.Value(wait) && cf.op == op && isNilConst(cf.y) {
+							return true
+						}
+					}
+					return false
+				}
+				switch {
+				case e == ssa.Value(wait) && test(token.NEQ):
+					pe = true
+				case strings.HasSuffix(path(e), "End") && test(token.EQL):
+					pn = true
+				default:
+					clean = false
+				}
+			}
+			if pe && pn && clean {
+				retErr, retEnd = true, true
 			}
 		}
 	})
